@@ -159,3 +159,16 @@ claim("C16",
            "property allows. The quick tier runs all single queries and a seeded sample of ordered pairs; thorough runs all pairs.",
       technique="TLA+ heap/alias model checked by TLC + conformance of predicted alias facts + exhaustive reflective query pairs",
       design_ref="DESIGN.md 5 C16, Appendix B")
+
+
+claim("C19",
+      text="spec/Gsd.tla states the from_gsd_type_shapes dispatch as a decision table (type string incl. missing / unknown / wrong "
+           "capitalisation x dimensions x rounding radius x convex or non-convex cycle -> class or ValueError) and, per class, "
+           "the round-trip actions (exported GSD type and keys, class that must come back, what GSD documentedly loses, the "
+           "documented to_hoomd keys) with the T1 theorem that every exported spec is accepted and yields the exporting class; "
+           "TLC enumerates it exhaustively and every row/action is executed on off-origin bases of all ten classes incl. both "
+           "polygon orientations and opposing explicit normals: GSD round trip, eval(repr), to_json subsets and unknown attribute, "
+           "to_hoomd compared key by key with an independently centred copy (HoomdCentred of HeapModel.tla is checked in C16).",
+      note="Known finding spheropolygon-hoomd-not-centred (the repository's own test asserts the un-centred vertices).",
+      technique="TLA+ decision table / round-trip machine enumerated by TLC + spec-to-code replay",
+      design_ref="DESIGN.md 5 C19")
